@@ -470,9 +470,12 @@ def _blocks(sc, rows_sel):
 
 
 def run_one(scen: Choices, sched: Choices, cls, cfg):
+    return execute(gen_scenario(scen, cls, cfg), sched, cls, cfg)
+
+
+def execute(sc, sched: Choices, cls, cfg):
     import pyarrow as pa
 
-    sc = gen_scenario(scen, cls, cfg)
     dtype, kernel = cls
     n = len(sc["codes"])
     codes, values, mask = _build_inputs(sc)
@@ -484,6 +487,7 @@ def run_one(scen: Choices, sched: Choices, cls, cfg):
         "interleavings": [],
         "ticks": 0,
         "nontrivial": False,
+        "scenario": sc,
     }
     site_base = {"property": PROP, "op": kernel}
     features = {
